@@ -81,7 +81,7 @@ Lemma v2i_skeleton_tie : V2I_skeleton =
 Proof. reflexivity. Qed.
 
 (* C08: var.go as Model/VarMock.v transcribes it: the pre-mock value is saved at the FIRST Set/Apply only, every Set
-   writes the variable, Cancel restores the saved value once and forgets it *)
+   writes the variable and makes the mocker live again, Cancel restores the saved value once and forgets it *)
 Lemma var_doset_skeleton_tie : defaultVarMocker_doSet_skeleton =
   ["target := m.targetValue.Elem()";
    "if !m.saved";
@@ -91,7 +91,8 @@ Lemma var_doset_skeleton_tie : defaultVarMocker_doSet_skeleton =
    "  m.saved = true";
    "d := reflect.ValueOf(value)";
    "target.Set(d)";
-   "m.mockValue = value"].
+   "m.mockValue = value";
+   "m.canceled = false"].
 Proof. reflexivity. Qed.
 
 Lemma var_cancel_skeleton_tie : defaultVarMocker_Cancel_skeleton =
